@@ -121,7 +121,8 @@ def main(argv):
                        "exit": r["exit"], "caught": caught, "wall_s": r["wall"], "violations": r["lines"]},
                       open(os.path.join(HERE, "seeded", sid, "last_check.json"), "w"), indent=1)
     os.makedirs(os.path.join(HERE, "out"), exist_ok=True)
-    json.dump(results, open(os.path.join(HERE, "out", "sensitivity.json"), "w"), indent=1)
+    # only a complete run replaces the table source of DESIGN 8.8; partial runs are kept beside it
+    json.dump(results, open(os.path.join(HERE, "out", "sensitivity.json" if not (props or only) else "sensitivity_partial.json"), "w"), indent=1)
     harmful = [r for r in results if r.get("expected") != "pass"]
     benign = [r for r in results if r.get("expected") == "pass"]
     print(f"sensitivity: {sum(r['caught'] for r in harmful)}/{len(harmful)} harmful changes caught, "
